@@ -12,7 +12,7 @@ import warnings
 import datetime as _dt
 
 from . import values as V
-from .faults import Ticker, InjectedFault, make_seq, FFunc
+from .faults import Ticker, InjectedFault, make_seq, FFunc, FName
 from .world import SkipOp, HarnessError, serif
 
 OPS = {}
@@ -532,6 +532,8 @@ def _rencol(world, rec, ctx):
 
 def _names_arg(spec, ctx):
     vals = V.dec_list(spec["v"])
+    if spec.get("fname"):
+        vals = [FName(v, ctx.ticker) if isinstance(v, str) else v for v in vals]
     k = spec.get("k", "list")
     if k == "list":
         return vals
